@@ -59,7 +59,7 @@ def _scenario(beh, stream, kind, seed, flight="app"):
         app = [["c", rng.randint(1, 80)], ["s", rng.randint(1, 80)]]
         shape = {"group": "permsg"}
     cd = dict(ver=ver, suite=suite, seed=seed, shape=shape, app=app, flow=dict(ipv=rng.choice([4, 6])))
-    l2 = rng.choice([{}, {"no_psh": 1}, {"no_psh": 1, "eth_pad": 1}, {"tcp_opts": 1}])      # (drawn here so that every draw of the connection keeps it)
+    l2 = rng.choice([{}, {"no_psh": 1}, {"no_psh": 1, "eth_pad": 1}, {"tcp_opts": 1}, {"vlan": 1}, {"tso": 1}])      # (drawn here so that every draw of the connection keeps it)
     # initial sequence numbers of the two directions are independent: they may be equal or close, so that segments of
     # opposite directions start at the same sequence number
     r3 = rng.random()
